@@ -53,3 +53,23 @@ Theorem C19_nested_lines_are_accounted_for : forall re_ok re_match o E P c,
   o_recorder o = true -> forall fuel chain f, accounted (eval_flag re_ok re_match o E P c fuel chain f).
 Proof. exact accounted_eval_flag. Qed.
 Print Assumptions C19_nested_lines_are_accounted_for.
+
+(* ... and without assuming that a recorder is configured: log lines do not depend on the recorder, and every line of an
+   evaluation whose own result is not MALFORMED_FLAG corresponds to a MALFORMED_FLAG prerequisite result that the same
+   evaluation reports when events are recorded *)
+Theorem C19_recorder_does_not_change_log_lines : forall re_ok re_match o1 o2 E P c f out1,
+  o_secondary o1 = o_secondary o2 -> o_logger o1 = o_logger o2 ->
+  run re_ok re_match o1 E P c f = Done out1 ->
+  exists out2, run re_ok re_match o2 E P c f = Done out2 /\
+               out_detail out2 = out_detail out1 /\ out_isexp out2 = out_isexp out1 /\
+               strip_events (out_trace out2) = strip_events (out_trace out1).
+Proof. exact recorder_keeps_log_lines. Qed.
+Print Assumptions C19_recorder_does_not_change_log_lines.
+Theorem C19_every_line_is_accounted_for_any_recorder : forall re_ok re_match o E P c f out k e,
+  run re_ok re_match o E P c f = Done out -> In (OLog k e) (out_trace out) ->
+  rs_kind (d_reason (out_detail out)) = RError KMalformed \/
+  exists out', run re_ok re_match (with_recorder o) E P c f = Done out' /\ out_detail out' = out_detail out /\
+               strip_events (out_trace out') = strip_events (out_trace out) /\
+               exists ev, In (OEvent ev) (out_trace out') /\ bad_detail (ev_detail ev).
+Proof. exact every_line_is_accounted_for_any_recorder. Qed.
+Print Assumptions C19_every_line_is_accounted_for_any_recorder.
